@@ -107,7 +107,10 @@ LEVEL_NOTE = ("Trusted: Lean kernel + standard axioms; tools/genparts/c17.py (AS
               "branch, `io = self.io_class(Input(..), Output(.., output_formatter), Output(.., error_formatter))`) and refuses to "
               "regenerate Gen/C09.lean when it differs (tie A note); beyond that it is what the comparison of the I/O "
               "state found by every handler with the real objects tests (a cached formatter object shows as a registry / "
-              "shared-object difference in the next run).")
+              "shared-object difference in the next run). The protocol of cached_formatter_leaks (FmtProto.cachedPerConfig; "
+              "c17.app_hist answers it when the request carries io.fmt_proto = \"cached\", which no case of this module does) was "
+              "run once against the seeded checkout C17-8: it predicted the I/O state found and the probe lines of all 60 of 60 "
+              "tweak histories tried, the per-run protocol of none.")
 RULE = ("proto: 3 settings x inner ok/raises (exhaustive); styles: all op sequences of length <= 3 (quick) / 4 (thorough) over "
         "4 factories + customisations, plus random to length 8; hist: generated trees + a fixed probe command, sequences of "
         "2-6 lines from {valid, too many arguments, unknown option, unconvertible value, help in both spellings (also "
